@@ -372,6 +372,44 @@ fn cli_part(ctx: &Arc<Ctx>) {
 		let _ = std::fs::remove_file(wpath.join(&out));
 	});
 	ctx.outcome_n("CLI convert runs", runs.len() as u64);
+	// a second conversion into a file that already holds the result of an earlier one with another selection: the
+	// file then holds the second selection (directories merge by design of the writer: a recorded C01 finding)
+	for ext in ["versatiles", "pmtiles", "tar", "mbtiles"] {
+		let out = format!("again.{ext}");
+		let src_name = if ext == "mbtiles" { "in_png.versatiles" } else { "in.versatiles" };
+		if ext == "mbtiles" {
+			let mut psrc = MemSource::new("m", tiles.clone(), TileFormat::PNG, TileCompression::Uncompressed);
+			if let Ok(ct::Written::Bytes(b)) = ct::write(&rt, Cont::Versatiles, &mut psrc, &work.0, "in_png") {
+				std::fs::write(work.0.join("in_png.versatiles"), b).unwrap();
+			}
+		}
+		let first = std::process::Command::new(&bin).current_dir(&work.0).arg("convert").arg(src_name).arg(&out).output();
+		let second = std::process::Command::new(&bin).current_dir(&work.0).arg("convert").args(["--max-zoom=1", "--flip-y"]).arg(src_name).arg(&out).output();
+		ctx.eval();
+		let case = json!({"kind": "cli-again", "target": ext});
+		let (Ok(a), Ok(b)) = (first, second) else { continue };
+		if !a.status.success() || !b.status.success() {
+			ctx.violation("the convert command fails", &format!("two conversions into {out}: {}", String::from_utf8_lossy(if a.status.success() { &b.stderr } else { &a.stderr }).lines().last().unwrap_or("")), case);
+			continue;
+		}
+		let o = Opts { flip: true, swap: false, zoom: Some((None, Some(1))), bbox: None, border: None };
+		let want: BTreeMap<Key, Vec<u8>> = tiles.iter().filter_map(|(k, v)| { let c = t_fwd(*k, &o); (selected(c, &o) == Some(true)).then(|| (c, v.clone())) }).collect();
+		let path = work.0.join(&out);
+		let cont = match ext { "versatiles" => Cont::Versatiles, "pmtiles" => Cont::Pmtiles, "tar" => Cont::Tar, _ => Cont::Mbtiles };
+		let w = if matches!(cont, Cont::Versatiles | Cont::Pmtiles) { ct::Written::Bytes(std::fs::read(&path).unwrap_or_default()) } else { ct::Written::Path(path.clone()) };
+		match ct::independent_decode(cont, &w) {
+			Err(e) => ctx.violation("the convert command's output cannot be decoded", &format!("second conversion into {out}: {e}"), case),
+			Ok(d) => {
+				let got: BTreeMap<Key, Vec<u8>> = d.tiles.iter().map(|(k, v)| (*k, v.clone())).collect();
+				if got != want {
+					let extra: Vec<&Key> = got.keys().filter(|k| !want.contains_key(*k)).take(5).collect();
+					let missing: Vec<&Key> = want.keys().filter(|k| !got.contains_key(*k)).take(5).collect();
+					ctx.violation("CLI conversion: a tile outside the selection or with another payload is present", &format!("second conversion (--max-zoom=1 --flip-y) into {out}, which held an unrestricted conversion: tiles outside the selection {extra:?}, missing {missing:?}"), case);
+				}
+			}
+		}
+		let _ = std::fs::remove_file(&path);
+	}
 	// server with the same transform flags exposes the same mapping as the conversion
 	let probes: Vec<Key> = all_coords().into_iter().filter(|k| k.0 <= 4 && (k.0 <= 3 || (k.1 % 3 == 0 && k.2 % 3 == 0) || tiles.keys().any(|t| t_fwd(*t, &Opts { flip: true, swap: true, zoom: None, bbox: None, border: None }) == *k || t_fwd(*t, &Opts { flip: true, swap: false, zoom: None, bbox: None, border: None }) == *k || t_fwd(*t, &Opts { flip: false, swap: true, zoom: None, bbox: None, border: None }) == *k))).collect();
 	for flags in 0..4u8 {
